@@ -92,7 +92,7 @@ def gen_case(rnd, spec):
                                 "program": [["sleep", rnd.choice([0.03, 0.06])], ["return", "str"]], "outcome": ["return", "str"]})
         script += [["execute_same_burst", "shared0", rnd.choice([2, 2, 3, 4])], ["sleep", 0.3]]
     for _ in range(rnd.randint(1, 10)):
-        ctx = rnd.choice(["outside", "outside", "thread", "coroutine", "helpers", "nested", "pair"])
+        ctx = rnd.choice(["outside", "outside", "thread", "coroutine", "helpers", "nested", "pair", "trio_worker"])
         if ctx == "outside":
             script.append(["execute", new(rnd.choice(common.FLAVOURS))["id"]])
         elif ctx == "thread":
@@ -109,6 +109,15 @@ def gen_case(rnd, spec):
             else:
                 gen["payloads"].append(caller)
                 script += [["adopt", caller["id"]], ["wait_event", "mark", caller["id"], 6.0]]
+        elif ctx == "trio_worker":
+            # an outside thread of a special kind: the worker thread of a trio run that is not the runtime's (a thread payload
+            # driving a private trio.run hands the call to trio.to_thread.run_sync)
+            kids = [new(rnd.choice(common.FLAVOURS)) for _ in range(rnd.randint(1, 3))]
+            caller = {"id": "wcaller%d" % n[0], "flavour": "threading", "cleanup": {"kind": "none"},
+                      "program": [["private_trio_execute", [k["id"] for k in kids]], ["mark", "caller-done"]]}
+            gen["payloads"].append(caller)
+            script += [["adopt", caller["id"]], ["wait_event", "mark", caller["id"], 6.0]]
+            gen.setdefault("tags", []).append("trio_worker")
         elif ctx == "coroutine":
             src, dst = direction.split("_to_")
             kids = [new(rnd.choice([dst, "threading"])) for _ in range(rnd.randint(1, 3))]
